@@ -45,6 +45,10 @@ pub struct Plan {
     pub path: String,
     pub pos: usize,
     pub extra_txs: usize,
+    /// prune depth of the node under test (0 = default 8): with 1 or 2 the blocks a reorganisation unwinds
+    /// have already lost their transactions in memory and must be re-read
+    #[serde(default)]
+    pub prune_after: u64,
 }
 
 fn gen(seed: u64, tier: Tier) -> Plan {
@@ -58,6 +62,7 @@ fn gen(seed: u64, tier: Tier) -> Plan {
         path: rng.pick(&["pool", "block-tip", "block-fork"]).to_string(),
         pos: rng.below(4) as usize,
         extra_txs: rng.below(4) as usize,
+        prune_after: *rng.pick(&[0u64, 1, 2]),
     }
 }
 
@@ -223,8 +228,13 @@ impl Scenario for C01 {
         let mut r = RunResult::default();
         let mut w = World::new(plan.seed, Params::default());
         let mut rng = Rng::new(mix(plan.seed, 5));
-        let mut n = Node::new(&w.cfg, &w.keys[2].clone());
+        let mut ncfg = w.cfg.clone();
+        if plan.prune_after > 0 {
+            ncfg.consensus.prune_after_blocks = plan.prune_after;
+        }
+        let mut n = Node::new(&ncfg, &w.keys[2].clone());
         let mut trace = Digest::new();
+        let mut side_tip: Option<usize> = None;
         // history
         let built = crate::util::guarded(|| -> Result<(usize, Vec<usize>), String> {
             let mut cur = 0usize;
@@ -232,10 +242,11 @@ impl Scenario for C01 {
             if plan.state == "after-reorg" && plan.depth >= 3 {
                 // side fork of 1-2 blocks first, then the main chain overtakes it
                 let mut s = 0usize;
-                for _ in 0..2.min(plan.depth - 1) {
+                for _ in 0..(2 + plan.pos % 3).min(plan.depth - 1) {
                     s = w.honest_child(s, &mut rng, 2, (w.recs[s].id + 1) % 2 == 0, 2300, "side")?;
                     order.push(s);
                 }
+                side_tip = Some(s);
             }
             for _ in 0..plan.depth {
                 let dt = 2000 + rng.below(500);
@@ -271,6 +282,17 @@ impl Scenario for C01 {
                     }
                 }
             }
+        }
+        // ... and outputs that only ever existed on the abandoned side fork ("created earlier on that same
+        // chain" fails for them): after the reorganisation they must be as unspendable as spent ones
+        if let Some(st) = side_tip {
+            let side_ledger = w.ledger_at(st);
+            let mut only_side: Vec<SlipRef> = side_ledger.utxo.values().filter(|s| s.amount > 0 && !ledger.utxo.contains_key(&s.key()) && !spent.iter().any(|x| x.key() == s.key())).cloned().collect();
+            only_side.sort_by_key(|s| s.key());
+            if !only_side.is_empty() {
+                r.probe("abandoned_fork_outputs_offered");
+            }
+            spent.extend(only_side);
         }
         let ts = w.recs[tip_idx].ts + 2500;
         let h = match make_hostile(&mut w, &ledger, &spent, &plan.edit, ts, &mut rng) {
